@@ -1,13 +1,11 @@
 import OxiVerif.Base.Driver
 import OxiVerif.Model.C20
+import OxiVerif.Model.C20Rewrite
 /-!
 Driver for C20 (builder b0320).  Request `det <cfg> <program>`; IMPL = `distinct=<k> runs=<n> …`
 (see harness/src/bin/c20.rs).
   MODEL  = what the order-oracle model says for the configuration: every emission site reached
-           without `use_xref_streams` is independent of the oracle (`Props/C20`), so `distinct=1`;
-           with `use_xref_streams` the cross-reference stream dictionary is emitted in iteration
-           order (`xrefStreamDictO`), two oracles give different bytes (`C20_witness_…`), so the
-           model answers `distinct>1 where=xrefdict`.
+           is independent of the oracle (`Props/C20`), so `distinct=1` under every configuration.
   ORACLE = the property itself on the observed outputs: ok iff all serialisations are identical.
 -/
 open OxiVerif
@@ -25,7 +23,7 @@ def fld (fs : List (String × String)) (k : String) : Option String :=
 
 def handle (req impl : String) : String × String :=
   match req.splitOn " " with
-  | ["det", cfg, _prog] =>
+  | ["det", cfg, prog] =>
     match cfg.splitOn ":" with
     | [k, _, _] =>
       let fs := fieldsOf impl
@@ -36,14 +34,22 @@ def handle (req impl : String) : String × String :=
         | some 1 => "ok"
         | some _ => "fail:nondeterministic:" ++ (fld fs "where").getD "?"
         | none => "fail:no-output:" ++ ((impl.splitOn " ").headD "")
+      -- every site of the model is independent of the order oracle (`Props/C20`), also the
+      -- cross-reference stream dictionary (`C20_xref_stream_dict`) and the /AP appearance-stream
+      -- allocation (`C20_ap_stream_allocation`) since their repair: one output, always
+      let _ := xs
+      -- …except the re-write of the same Document value (`Model/C20Rewrite.lean`): FormManager
+      -- fields (`F,t` / `F,c`) together with /T-carrying widget annotations (`F,x`) on a document
+      -- without AcroForm make the second serialisation list more /Fields (C20-F3)
+      let has (k : String) := (prog.splitOn k).length > 1
+      let hasMgr := has ";F,t," || has ";F,c,"
+      let w : List Nat := if has ";F,x," then [2] else []
+      let tw := OxiVerif.C20.writeTwice hasMgr [1] w none
       let model :=
-        if xs then
-          -- the model cannot (and must not) predict hash orders: it reproduces the observed
-          -- answer exactly when that answer is "several outputs, first difference inside the
-          -- cross-reference stream object", and disagrees otherwise
-          if fld fs "where" == some "xrefdict" ∧ (fld fs "distinct") != some "1" then impl
-          else "distinct>1 where=xrefdict"
-        else s!"distinct=1 runs={runs}"
+        if tw.1 == tw.2 then s!"distinct=1 runs={runs}"
+        else if fld fs "distinct" == some "2" ∧ fld fs "same" == some "0" ∧ fld fs "fresh" == some "1"
+                ∧ fld fs "where" == some "body" then impl
+        else "distinct=2 same=0 fresh=1 where=body"
       (model, oracle)
     | _ => ("bad-request", "na")
   | _ => ("bad-request", "na")
